@@ -12,6 +12,7 @@ import (
 	"fmt"
 	"hash"
 	"io"
+	"regexp"
 	"strings"
 	"time"
 
@@ -103,14 +104,105 @@ func runC03(rc *RC) {
 	if rc.Ch.Chance("workload", 1, 2) {
 		rc.Net.Chunk = func() int { return 1 + rc.Ch.Int("net", 90) }
 	}
-	if rc.Ch.Int("workload", 2) == 0 {
+	switch k := rc.Ch.Int("workload", 9); {
+	case k == 8:
+		c03SharedFeature(rc)
+	case k%2 == 0:
 		c03Initiator(rc)
-	} else {
+	default:
 		c03Receiver(rc)
 	}
 	stuck := rc.Teardown()
 	rc.CheckPanics("C03.c4")
 	rc.Check("C03.c4", "stuck-after-teardown", len(stuck) == 0, "tasks still blocked after teardown: %v", stuck)
+}
+
+// c03SharedFeature: two or three initiating sessions of one process use ONE xmpp.SASL feature value at the same time,
+// each against a receiver that offers its own list of mechanisms. c3: the mechanism each initiator names in its <auth/>
+// is one that ITS receiver offered (and that it is configured with).
+func c03SharedFeature(rc *RC) {
+	ch := rc.Ch
+	strat := rc.S.ConfigureStrategy()
+	names := []string{"PLAIN", "SCRAM-SHA-1", "SCRAM-SHA-256"}
+	mechs := map[string]sasl.Mechanism{"PLAIN": sasl.Plain, "SCRAM-SHA-1": sasl.ScramSha1, "SCRAM-SHA-256": sasl.ScramSha256}
+	var prefs []sasl.Mechanism
+	var prefNames []string
+	for _, i := range ch.Perm("workload", len(names)) {
+		prefs, prefNames = append(prefs, mechs[names[i]]), append(prefNames, names[i])
+	}
+	shared := xmpp.SASL("", "pass", prefs...)
+	n := ch.Range("workload", 2, 3)
+	type sh struct {
+		offered []string
+		named   string
+		done    bool
+	}
+	var all []*sh
+	ctx, cancel := context.WithTimeout(context.Background(), 20*time.Second)
+	rc.OnCleanup(cancel)
+	for i := 0; i < n; i++ {
+		x := &sh{}
+		for _, j := range ch.Perm("workload", len(names)) {
+			if len(x.offered) == 0 || ch.Chance("workload", 1, 3) {
+				x.offered = append(x.offered, names[j])
+			}
+		}
+		all = append(all, x)
+		cc, sc := rc.Net.Pipe(fmt.Sprintf("cli%d", i), fmt.Sprintf("srv%d", i))
+		rc.OnCleanup(func() { cc.Close(); sc.Close() })
+		origin := jid.MustParse(fmt.Sprintf("user%d@example.net", i))
+		rc.Spawn(fmt.Sprintf("sut%d", i), func() {
+			xmpp.NewSession(ctx, origin.Domain(), origin, cc, xmpp.Secure, xmpp.NewNegotiator(func(*xmpp.Session, *xmpp.StreamConfig) xmpp.StreamConfig {
+				return xmpp.StreamConfig{Features: []xmpp.StreamFeature{shared}}
+			}))
+			x.done = true
+		})
+		rc.Spawn(fmt.Sprintf("script%d", i), func() {
+			out := cc.Out()
+			simrt.WaitUntil("script:hdr", func() bool {
+				return x.done || (bytes.Contains(out.Tap, []byte("<stream:stream")) && bytes.HasSuffix(out.Tap, []byte(">")))
+			})
+			var sb strings.Builder
+			for _, a := range x.offered {
+				sb.WriteString(`<mechanism>` + a + `</mechanism>`)
+			}
+			// the list may arrive a little later than the header
+			fmt.Fprintf(sc, `<?xml version='1.0'?><stream:stream xmlns='jabber:client' xmlns:stream='http://etherx.jabber.org/streams' version='1.0' id='sid%d' from='example.net'>`, i)
+			if ch.Chance("script", 1, 2) {
+				simrt.Sleep(time.Duration(ch.Range("script", 1, 20)) * time.Millisecond)
+			}
+			fmt.Fprintf(sc, `<stream:features><mechanisms xmlns='%s'>%s</mechanisms></stream:features>`, nsSASL, sb.String())
+			simrt.WaitUntil("script:auth", func() bool {
+				return x.done || bytes.Contains(out.Tap, []byte("</auth>")) || bytes.Contains(out.Tap, []byte("/>")) && bytes.Contains(out.Tap, []byte("<auth"))
+			})
+			if m := regexp.MustCompile(`<auth[^>]*mechanism=["']([^"']*)["']`).FindSubmatch(out.Tap); m != nil {
+				x.named = string(m[1])
+			}
+			fmt.Fprintf(sc, `<failure xmlns='%s'><not-authorized/></failure>`, nsSASL)
+		})
+	}
+	rc.Describe("shared SASL feature value: strategy=%s prefs=%v sessions=%d", strat, prefNames, n)
+	rc.CaseKey = fmt.Sprint("shared", prefNames, n)
+	rc.S.Run(func() bool {
+		for _, x := range all {
+			if !x.done {
+				return false
+			}
+		}
+		return true
+	}, 60000, time.Minute)
+	for i, x := range all {
+		rc.Describe("session %d offered=%v named=%q", i, x.offered, x.named)
+		if x.named == "" {
+			continue
+		}
+		rc.Evals["C03.c3"]++
+		ok := false
+		for _, o := range x.offered {
+			ok = ok || o == x.named
+		}
+		rc.Check("C03.c3", "unoffered-mechanism-used:shared-feature", ok, "session %d of %d sharing one SASL feature value sent <auth mechanism=%q/> to a receiver that offered %v", i, n, x.named, x.offered)
+	}
 }
 
 func c03Initiator(rc *RC) {
